@@ -209,8 +209,11 @@ impl DatagramWriter {
     pub fn send_bytes(&self, data: Bytes) -> io::Result<()> {
         match self.writer.lock().unwrap().deref_mut() {
             Ok(writer) => {
-                // Only consider the smallest encoding method: 1 byte
-                if (1 + data.len()) > self.max_datagram_frame_size {
+                // The packet assembler prefers the form with the length field, so the frame
+                // put on the wire can be `1 + varint(len) + len` bytes: that is the size that
+                // must fit the peer's max_datagram_frame_size.
+                let len_size = VarInt::try_from(data.len()).map_or(8, VarInt::encoding_size);
+                if (1 + len_size + data.len()) > self.max_datagram_frame_size {
                     tracing::error!("   Cause by: DatagramWriter::send_bytes");
                     return Err(io::Error::new(
                         io::ErrorKind::InvalidInput,
